@@ -234,6 +234,62 @@ class Model:
         self.macros = [it for _, it in self.items if it["kind"] == "macro"]
         self.fns = [it for _, it in self.items if it["kind"] == "fn"]
 
+    # ------------------------------------------------------------------ configuration space
+    CFG_KNOWN = {'feature="get-info-full"', 'feature="large-blobs"', 'feature="third-party-payment"', 'feature="arbitrary"', "test"}
+
+    def foreign_cfg_atoms(self):
+        """every predicate atom of every `#[cfg(..)]`, `#[cfg_attr(.., ..)]` and `cfg!(..)` outside test modules that is not
+        one of the three wire features / `arbitrary` / `test`"""
+        atoms = set()
+
+        def pred(m):
+            if m.get("p") in ("not", "any", "all"):
+                for x in m.get("l", []):
+                    pred(x)
+            elif "v" in m and m.get("v") is not None:
+                atoms.add(f'{m["p"]}="{m["v"]}"')
+            else:
+                atoms.add(m["p"])
+
+        def walk(x):
+            if isinstance(x, dict):
+                for a in x.get("attrs", []) or []:
+                    if isinstance(a, dict) and a.get("p") == "cfg":
+                        for y in a.get("l", []):
+                            pred(y)
+                    elif isinstance(a, dict) and a.get("p") == "cfg_attr" and a.get("l"):
+                        pred(a["l"][0])
+                for v in x.values():
+                    walk(v)
+            elif isinstance(x, list):
+                for v in x:
+                    walk(v)
+            elif isinstance(x, str) and "cfg" in x:
+                txt = x.replace(" ", "")
+                for m in re.finditer(r"cfg(?:_attr)?!?\(", txt):
+                    depth, j = 1, m.end()
+                    while j < len(txt) and depth:
+                        depth += txt[j] == "("
+                        depth -= txt[j] == ")"
+                        j += 1
+                    inner = txt[m.end():j - 1]
+                    if "cfg_attr" in m.group(0):
+                        # only the predicate (up to the first top-level comma)
+                        d = 0
+                        for k, ch in enumerate(inner):
+                            d += ch == "("
+                            d -= ch == ")"
+                            if ch == "," and d == 0:
+                                inner = inner[:k]
+                                break
+                    for a in re.finditer(r'([A-Za-z_][A-Za-z0-9_]*)(?:="([^"]*)")?', inner):
+                        if a.group(1) in ("not", "any", "all"):
+                            continue
+                        atoms.add(a.group(1) + (f'="{a.group(2)}"' if a.group(2) is not None else ""))
+        for _, it in self.items:
+            walk(it)
+        return atoms - self.CFG_KNOWN
+
     # ------------------------------------------------------------------ re-exports
     def compute_cmodules(self):
         """canonical (publicly reachable) module of every item: an item of a private module that its
@@ -1049,6 +1105,21 @@ class Model:
                           if it.get("kind") == "fn" and re.search(r"debug_assert|debug_assertions", it.get("body") or "")})
             if dbg:
                 errors["profile"] = "behaviour may depend on the build profile (debug_assert! / cfg(debug_assertions)) in: " + ", ".join(dbg)[:400]
+        if errors is not None:
+            # the configuration space the checks build is {3 wire features} x {arbitrary}; anything else a `cfg` mentions
+            # is either a configuration the check can also build (std, log-*, the profile) or one it cannot (targets ...)
+            foreign = self.foreign_cfg_atoms()
+            std = sorted(a for a in foreign if a == 'feature="std"')
+            logf = sorted(a for a in foreign if a.startswith('feature="log-'))
+            rest = sorted(a for a in foreign if a not in std and a not in logf and a != "debug_assertions")
+            if std:
+                errors["cfg:std"] = "code gated on the `std` feature (the cases are also run in a build with it)"
+            if logf:
+                self.logging_unsafe = sorted(set(self.logging_unsafe) | {"cfg(" + a + ")" for a in logf})
+            if "debug_assertions" in foreign and "profile" not in errors:
+                errors["profile"] = "behaviour may depend on the build profile: cfg(debug_assertions)"
+            if rest:
+                errors["cfgspace"] = "code gated on a configuration no check can build here: " + ", ".join(rest)[:400]
         if errors is not None and self.logging_unsafe:
             errors["logging"] = "log lines whose arguments are evaluated code (active with the log-* features): " + \
                                 " | ".join(self.logging_unsafe)[:600]
